@@ -74,7 +74,7 @@ def judge_all(prop, cfg, lines, impl, model, incidents):
     nontrivial = False
     skip = False
     inc = dict(incidents)
-    BUILD = ("val", "grp_", "avp_", "add", "decode", "reencode")
+    BUILD = ("val", "grp_", "avp_", "add", "decode", "reencode", "dadd", "avp ", "doc_end", "dconstruct")
     for i, l in enumerate(lines):
         if l.startswith("#"):
             if l.startswith("#case"):
@@ -82,6 +82,8 @@ def judge_all(prop, cfg, lines, impl, model, incidents):
                 nontrivial = False
                 skip = False
                 ctx.last_dump = None
+                ctx.case_label = l
+                ctx.case_state = {}
             continue
         if not l:
             continue
